@@ -1148,21 +1148,30 @@ namespace occa {
         return;
       }
 
-      // Make sure to test #elif expression is valid
-      bool isTrue;
-      if (!lineIsTrue(directive, isTrue)) {
-        return;
-      }
-
       // If we already finished, keep old state
+      // The expression is not evaluated (it might not even be valid):
+      //   a previous group was taken or the whole #if is being skipped
       if (status & ppStatus::finishedIf) {
+        skipToNewline();
         return;
       }
 
       if (status & ppStatus::reading) {
+        skipToNewline();
         swapReadingStatus();
         status |= ppStatus::finishedIf;
-      } else if (isTrue) {
+        return;
+      }
+
+      bool isTrue;
+      if (!lineIsTrue(directive, isTrue)) {
+        // lineIsTrue pushed a status for a new #if,
+        //   we are still in the same one
+        popStatus();
+        return;
+      }
+
+      if (isTrue) {
         status = (ppStatus::foundIf |
                   ppStatus::reading);
       }
